@@ -532,7 +532,7 @@ def model_request(case, pinned=False, m="c06"):
             cmds.append({"op": "rmcache", "user": UID[c["user"]], "stack": c["stack"], "flavor": c["flavor"]})
             continue
         d = {"op": c["op"], "user": UID[c.get("user", "A")], "self": c.get("flavor", "Linux")}
-        for k in ("name", "version", "dir", "stack", "tag", "force", "noaction", "vat", "crash"):
+        for k in ("name", "version", "dir", "stack", "tag", "force", "noaction", "vat", "crash", "recursive"):
             if k in c:
                 d[k] = c[k]
         if c.get("table") == "none":
